@@ -582,6 +582,10 @@ func ruleErrUsed(w *World, r *Report, in map[*ssa.Function]bool) {
 					// the error (or its comparison with nil) is carried on in a variable, returned, wrapped or
 					// handed to a helper: it is not dropped, the rule just cannot follow it
 					r.Add(Obligation{Rule: "ERRUSED", Key: key, Pos: pos, Status: Undecided, Detail: "parse error is carried on (flag, returned or wrapped value) instead of being tested in place (" + shortInstr(c) + ")", Canary: can})
+				} else if errEdgeCanFail(f, e, ee) {
+					// the non-nil edge reaches a failure return as well as a success return (a flag
+					// set on the failing edge and tested after the loop): not followed
+					r.Add(Obligation{Rule: "ERRUSED", Key: key, Pos: pos, Status: Undecided, Detail: "parse error is tested, and its non-nil edge can reach failure returns, but not only failure returns (a flag or counter set on that edge?) (" + shortInstr(c) + ")", Canary: can})
 				} else {
 					r.Add(Obligation{Rule: "ERRUSED", Key: key, Pos: pos, Status: Violated, Detail: "parse error is read but no test of it leads to a failure return on the non-nil edge (" + shortInstr(c) + ")", Canary: can})
 				}
@@ -637,7 +641,7 @@ func errTested(f *ssa.Function, e *scEngine, ev ssa.Value) bool {
 			for _, ret := range returnsOf(f) {
 				if reach[ret.Block()] {
 					any = true
-					if !e.isFailureReturn(f, ret) {
+					if !e.isFailureReturn(f, ret) && !failsAlong(f, ret, reach, blk, nonNil) {
 						ok = false
 					}
 				}
@@ -669,7 +673,9 @@ func discardedOK(w *World, e *scEngine, f *ssa.Function, c *ssa.Call) (bool, str
 			return false, "no validating callee rejects argument " + p.Name() + ": " + why
 		}
 	}
-	return false, "the parsed text is not tied to a parameter that a validating callee re-parses"
+	// the text reaches the parse through a helper, a value type or strings.Cut: which
+	// parameter it belongs to, and whether that parameter is validated, was not followed
+	return false, "UNDECIDED: the parsed text could not be tied to a parameter (it is cut out by a helper or in a form the rule does not read)"
 }
 
 // ---------------------------------------------------------------- NOPARTIAL
@@ -958,4 +964,78 @@ func shadowedErrResult(w *World, f *ssa.Function) string {
 		return true
 	})
 	return out
+}
+
+// failsAlong: the error operand of a single-exit return is a phi; restricted to
+// the incoming edges whose predecessor lies in `reach` (the blocks reachable
+// from the failing edge under consideration), every incoming value is an error.
+func failsAlong(f *ssa.Function, ret *ssa.Return, reach map[*ssa.BasicBlock]bool, testBlk, nonNil *ssa.BasicBlock) bool {
+	ei := errResultIndex(f)
+	if ei < 0 || ei >= len(ret.Results) {
+		return false
+	}
+	seen := map[*ssa.Phi]bool{}
+	var all func(v ssa.Value, at *ssa.BasicBlock) bool
+	all = func(v ssa.Value, at *ssa.BasicBlock) bool {
+		ph, ok := v.(*ssa.Phi)
+		if !ok {
+			return classifyErrValue(f, v, at, map[ssa.Value]bool{}) == retError
+		}
+		if seen[ph] {
+			return true
+		}
+		seen[ph] = true
+		n := 0
+		for i, e := range ph.Edges {
+			pred := ph.Block().Preds[i]
+			if !reach[pred] && !(pred == testBlk && ph.Block() == nonNil) {
+				continue
+			}
+			n++
+			if !all(e, pred) {
+				return false
+			}
+		}
+		return n > 0
+	}
+	return all(ret.Results[ei], ret.Block())
+}
+
+// errEdgeCanFail: some nil-test of the error has a non-nil edge from which a
+// failure return (or one whose error cannot be classified) is reachable.
+func errEdgeCanFail(f *ssa.Function, e *scEngine, ev ssa.Value) bool {
+	for _, ref := range *ev.Referrers() {
+		b, ok := ref.(*ssa.BinOp)
+		if !ok || (b.Op != token.NEQ && b.Op != token.EQL) || !(isNilConst(b.X) || isNilConst(b.Y)) {
+			continue
+		}
+		for _, blk := range f.Blocks {
+			t, fl, i := ifSuccs(blk)
+			if i == nil {
+				continue
+			}
+			neg := false
+			cond := i.Cond
+			if u, ok := cond.(*ssa.UnOp); ok && u.Op == token.NOT {
+				cond, neg = u.X, true
+			}
+			if cond != ssa.Value(b) {
+				continue
+			}
+			nonNil := t
+			if (b.Op == token.EQL) != neg {
+				nonNil = fl
+			}
+			reach := reachableFrom(nonNil, nil)
+			for _, ret := range returnsOf(f) {
+				if !reach[ret.Block()] {
+					continue
+				}
+				if e.isFailureReturn(f, ret) || (errResultIndex(f) >= 0 && classifyReturn(f, ret) == retUnknown) {
+					return true
+				}
+			}
+		}
+	}
+	return false
 }
